@@ -73,7 +73,12 @@ func (g *c09Gen) returns(depth int, allowInclude bool) []*mj.Node {
 		}
 		sub := &mj.File{Path: "/" + g.id("retsub") + ".jet", Body: append([]*mj.Node{mj.Text("sub:")}, g.returns(depth+1, false)...)}
 		g.addFile(sub)
-		return []*mj.Node{{K: "include", E: mj.Str(sub.Path)}, mj.Text("after-include")}
+		inc := &mj.Node{K: "include", E: mj.Str(sub.Path)}
+		if g.n(0, 1, "retIncludeCtx") == 0 {
+			inc.Ctx = mj.Str(g.id("retctx"))
+			g.labels["return-through-include-with-context"] = true
+		}
+		return []*mj.Node{inc, mj.Text("after-include")}
 	}
 }
 
